@@ -9,6 +9,7 @@ import Driver.GCMon.Main
 import Driver.Immix.Main
 import Driver.Sched.Main
 import Driver.Los.Main
+import Driver.GCWeak.Main
 /-!
 # `mmtk_model`: the executable model behind the line protocol
 
@@ -29,6 +30,7 @@ structure St where
   immix : Driver.Immix.St := {}
   sched : Driver.Sched.St := {}
   los : Driver.Los.St := {}
+  gcweak : Driver.GCWeak.Pkg.St := {}
 
 def step (st : St) (line : String) : St × Option String :=
   match tokens line with
@@ -70,6 +72,9 @@ def step (st : St) (line : String) : St × Option String :=
     | none =>
     match Driver.Los.step st.los toks with
     | some (s, o) => ({ st with los := s }, some o)
+    | none =>
+    match Driver.GCWeak.Pkg.step st.gcweak toks with
+    | some (s, o) => ({ st with gcweak := s }, some o)
     | none => (st, some "bad-op")
 
 partial def loop (h : IO.FS.Stream) (out : IO.FS.Stream) (st : St) : IO Unit := do
